@@ -60,6 +60,15 @@ Proof. intros st name H1 H2. unfold Model.Vars.vget. now rewrite H2, H1. Qed.
 Theorem c14_readonly_refused : forall st name v t d, lookup (lower name) SV = Some (t, d, false) -> vset st name v false = Err ENotDynamic.
 Proof. intros st name v t d H. rewrite vset_char, (setval_readonly _ _ _ _ _ _ H). reflexivity. Qed.
 
+(* a SET statement is applied as a whole or not at all: when any of its assignments is refused, every variable reads
+   as before the statement *)
+Theorem c14_refused_set_changes_nothing : forall st items st' e,
+  set_statement SV usable defcoll TX st items = (st', Some e) -> st' = st.
+Proof.
+  intros st items st' e. unfold set_statement. destruct (resolve_items SV st items) as [l|x]; [|intros H; now inversion H].
+  destruct (exec_items SV usable defcoll TX st l) as [s1 [x|]]; intros H; inversion H; reflexivity.
+Qed.
+
 (* read-only variables: no sequence of client statements - SET in any form, hints, reads - changes one *)
 Theorem c14_readonly : forall ops st n t d, lookup (lower n) SV = Some (t, d, false) -> forallb client_op ops = true ->
   vget (fst (run st ops)) n = vget st n.
